@@ -34,3 +34,13 @@ def register_all(reg):
     reg("C01", "netx", "model_checking", "explicit-state search of the real DPOP computations over a virtual FIFO network (all start orders and delivery interleavings, state caching) x bounded-exhaustive instance family",
         "For every DCOP of the small-scope family the real pseudo-tree is built and every reachable state of the real DPOP computations is visited; every maximal path must end with all computations finished on a brute-force-optimal, complete, in-domain assignment.",
         NETX_NOTE, "DESIGN.md 3 C01")
+
+    reg("C13", "seqx", "exploration", "bounded-exhaustive DCOP/assignment enumeration vs a reference accounting model",
+        "All DCOPs with <=3 variables, 0-1 external variable, <=3 rotation-table constraints and per-variable cost functions; solution_cost (method and function) on every complete and incomplete assignment for infinity in {10000, inf}, and assignment_cost with dict/keyword value splits, compared with a reference count/sum.",
+        "DCOPs are assembled the YAML-loader way; relation lookup itself is C11/C12's subject. " + E2_NOTE, "DESIGN.md 3 C13")
+    reg("C17", "seqx", "exploration", "bounded-exhaustive input enumeration with a reference validator",
+        "All labelled constraint graphs up to 6 (quick) / 7 (thorough) variables, all graph+extra-constraint overlays and constraint multisets with unary, duplicate and n-ary scopes, plus size sweeps of 9 families up to 3000 (quick) / 5000 (thorough) variables are built with the real pseudotree.build_computation_graph and every forest is validated (nodes, link consistency, acyclicity, DFS ancestor/back-edge property, per-node constraints, no crash).",
+        "Sizes above 7 variables are a family sweep, not all graphs. " + E2_NOTE, "DESIGN.md 3 C17")
+    reg("C29", "seqx", "exploration", "bounded-exhaustive input enumeration against a reference cartesian product",
+        "All batch parameter definitions with 0-3 (quick) / 0-4 (thorough) parameters over a 21-spec menu (scalars, lists, one-level nested dicts) are expanded by the real regularize_parameters/parameters_configuration and rendered by build_option_for_parameters; the expansion must equal the reference product exactly once, be identical under every rewriting of the definition and under other hash seeds, and render each chosen value exactly once.",
+        "Empty lists, None/bool/'' values and dicts nested deeper than one level are outside the alphabet. " + E2_NOTE, "DESIGN.md 3 C29")
